@@ -196,6 +196,8 @@ class DHTDiscoveryCommunity(DHTCommunity):
         if not self.request_cache.has("store-peer", payload.identifier):
             self.logger.warning("Got store-peer-response with unknown identifier, dropping packet")
             return
+        if not self.is_answer_of_asked_node("store-peer", payload.identifier, peer):
+            return
 
         self.logger.debug("Got store-peer-response from %s", peer.address)
 
@@ -230,6 +232,8 @@ class DHTDiscoveryCommunity(DHTCommunity):
         """
         if not self.request_cache.has("connect-peer", payload.identifier):
             self.logger.warning("Got connect-peer-response with unknown identifier, dropping packet")
+            return
+        if not self.is_answer_of_asked_node("connect-peer", payload.identifier, peer):
             return
 
         self.logger.debug("Got connect-peer-response from %s", peer.address)
